@@ -461,7 +461,7 @@ func main() {
 	mcreport.Main("C08", "model_checking",
 		"concurrent part: every interleaving, up to the stated preemption bound, of the atomic steps of the real internal/streams code for each listed thread program, with observational state caching; distinct = distinct observable histories per scenario. sequential part: every operation sequence up to the depth bound over {get, clear(4 tracked ids)} from a 3-free-ids state, both capacities",
 		[]string{"atomics are sequentially consistent (Go memory model); plain accesses are not scheduling points (checked by the separate -race pass)",
-			"'double release is harmless' is read as: releasing an id that is not currently handed out returns false and changes nothing; a second release racing a re-acquisition by another caller is outside the statement (DESIGN.md C08)",
+			"'double release is harmless' is read as: two releases of one holding - sequential or concurrent - report true exactly once and change the count once; only a second release racing a RE-ACQUISITION of that id by another caller is outside the statement (no generation-less allocator can tell them apart)",
 			"thread programs and free-id sets as listed under coverage.scenarios"},
 		defs, 40*time.Second, 8*time.Minute, sequential)
 }
